@@ -57,7 +57,7 @@ let cmd_s = function
   | CDeleteSymlink (p, k) -> Printf.sprintf "RmL:%s:%s" (hex_of_path p) (kind_s k)
   | CMarker -> "Marker" | CShutdown -> "Shutdown"
 let err_s = function EExist -> "EEXIST" | ENoEnt -> "ENOENT" | ENotDir -> "ENOTDIR" | EIsDir -> "EISDIR"
-  | ENotEmpty -> "ENOTEMPTY" | EUnexpectedContinue -> "ECONT" | EUnknownKind -> "EKIND" | EInjected -> "EINJ"
+  | ENotEmpty -> "ENOTEMPTY" | EUnexpectedContinue -> "ECONT" | EUnknownKind -> "EKIND" | EInjected -> "EINJ" | ERefused -> "EREFUSED" | EWrite -> "EWRITE" | EKilled -> "EKILLED"
 let reason_s = function NotOnDest -> "notondest" | DestNewer -> "newer" | DestOlder -> "older" | SameTime -> "same"
 let prompt_s = function PRoot -> "R" | PDelete p -> "D:" ^ hex_of_path p | PCopy (p, r) -> "C:" ^ hex_of_path p ^ ":" ^ reason_s r
 let event_s = function Through q -> "T:" ^ hex_of_path q | CreatedAncestors -> "A"
@@ -116,7 +116,8 @@ let () =
         let ex = List.map path_of_hex (split ';' (get "ex")) in
         let ft = { ft_dest = List.map (fun s -> nat_of_int (int_of_string s)) (split ',' (get "fd"));
                    ft_src = List.map (fun s -> nat_of_int (int_of_string s)) (split ',' (get "fsrc"));
-                   ft_lag = nat_of_int (int_of_string (get "lag")) } in
+                   ft_lag = nat_of_int (int_of_string (get "lag"));
+                   ft_stop = (match List.assoc_opt "stop" kvs with Some "-" | None -> None | Some s -> Some (nat_of_int (int_of_string s))) } in
         (match r with
          | "LS" :: r ->
             let (lsp, r) = parse_paths r [] in
@@ -124,7 +125,8 @@ let () =
             let (ldp, _) = parse_paths r [] in
             let full_s = listing_top ex s_nodes and full_d = listing_top ex d_nodes in
             let pick full ps = List.filter_map (fun p -> match List.assoc_opt p full with Some e -> Some (p, e) | None -> None) ps in
-            print_result (run_orders cfg s_nodes d_nodes anc ans bits (pick full_s lsp) (pick full_d ldp) ft)
+            let fw = (match List.assoc_opt "fw" kvs with Some s -> List.map (fun x -> n_of_int (int_of_string x)) (split ',' s) | None -> []) in
+            print_result (run_orders_w cfg s_nodes d_nodes anc fw ans bits (pick full_s lsp) (pick full_d ldp) ft)
          | _ -> print_result (run_top cfg s_nodes d_nodes anc ans bits ex ft))
      | "LIST" :: rest ->
         let kvs = kv rest in
